@@ -212,3 +212,53 @@ def build_write_sourcemap(smod):
             params=dict(common, output_stream=Stream('out', 'sym', 'replace'), sourcemap_stream=Stream('map', 'sym', None), source_mapping_url=smu),
             ensures=ens, env=env, notes='separate streams, %s' % smu_label))
     return cs
+
+
+def build_normrelpath(umod):
+    """utils.normrelpath: the wiring of the os.path calls (which path is normalised, whose directory is the start) -- os.path itself
+    is a trusted library; the round-trip property over real paths stays a bounded stand-in (vf/checks/pathobl.py)."""
+    cs = []
+    rec = {}
+
+    def reset():
+        rec.clear()
+        rec['log'] = []
+
+    def ext(name):
+        def fn(e, a, k):
+            r = Str.fresh(name + '_result')
+            rec['log'].append((name, tuple(a), r))
+            return r
+        return fn
+
+    def isabs_model(absolute):
+        def fn(e, a, k):
+            rec['log'].append(('isabs', tuple(a), absolute[len([x for x in rec['log'] if x[0] == 'isabs'])]))
+            return rec['log'][-1][2]
+        return fn
+
+    def result_of(e, name, arg):
+        for n, a, r in rec['log']:
+            if n == name and len(a) >= 1 and a[0] is arg:
+                return r
+        return None
+
+    def relpath_args(e):
+        for n, a, r in rec['log']:
+            if n == 'relpath':
+                return a
+        return None
+    for absolute in ((True, True), (True, False), (False, True), (False, False)):
+        env = {'__reset__': reset, 'isabs': PExt('os.path.isabs', isabs_model(absolute)), 'normpath': PExt('os.path.normpath', ext('normpath')),
+               'dirname': PExt('os.path.dirname', ext('dirname')), 'relpath': PExt('os.path.relpath', ext('relpath')),
+               'map': PExt('map', lambda e, a, k: PList([e.call(a[0], [x], {}, None) for x in (a[1].val if isinstance(a[1], PList) else a[1])])),
+               'norm_of': Helper(lambda e, p: result_of(e, 'normpath', p)), 'dir_of': Helper(lambda e, p: result_of(e, 'dirname', p)),
+               'rel_args': Helper(relpath_args),
+               'rel_result': Helper(lambda e: [r for n, a, r in rec['log'] if n == 'relpath'][0] if any(n == 'relpath' for n, a, r in rec['log']) else None)}
+        if all(absolute):
+            ens = ['result is rel_result()', 'rel_args()[0] is norm_of(target)', 'rel_args()[1] is dir_of(norm_of(base))']
+        else:
+            ens = ['result is target', 'rel_result() is None']
+        cs.append(Contract('calmjs.parse.utils:normrelpath', params={'base': Str, 'target': Str}, ensures=ens, env=env,
+                           notes='isabs(base)=%s isabs(target)=%s' % absolute))
+    return cs
